@@ -784,15 +784,54 @@ func (env *ExprEnv) resolveType(e ast.Expr) types.Type {
 }
 
 func (env *ExprEnv) lookupPkg(name string) *types.Package {
-	for path, p := range env.t.eng.allpkgs {
-		if p.Types != nil && p.Types.Name() == name {
-			// prefer module packages and direct matches
-			if strings.HasPrefix(path, modPath) || !strings.Contains(path, "/") || strings.HasSuffix(path, "/"+name) {
-				return p.Types
+	// Several packages can share a name (sync/atomic, internal/runtime/atomic, ...): the choice must not depend on map
+	// order. Preference: a package imported by the contract's own package; then module packages; then the shortest path
+	// that is not an internal package; ties broken alphabetically.
+	if own := env.pkgTypes(); own != nil {
+		var hits []string
+		byPath := map[string]*types.Package{}
+		for _, imp := range own.Imports() {
+			if imp.Name() == name {
+				hits = append(hits, imp.Path())
+				byPath[imp.Path()] = imp
 			}
 		}
+		sort.Strings(hits)
+		if len(hits) > 0 {
+			return byPath[hits[0]]
+		}
 	}
-	return nil
+	var cands []string
+	for path, p := range env.t.eng.allpkgs {
+		if p.Types != nil && p.Types.Name() == name {
+			cands = append(cands, path)
+		}
+	}
+	if len(cands) == 0 {
+		return nil
+	}
+	rank := func(path string) int {
+		switch {
+		case strings.HasPrefix(path, modPath):
+			return 0
+		case strings.Contains(path, "internal/") || strings.HasPrefix(path, "internal"):
+			return 3
+		case !strings.Contains(path, "."):
+			return 1 // standard library
+		}
+		return 2
+	}
+	sort.Slice(cands, func(i, j int) bool {
+		ri, rj := rank(cands[i]), rank(cands[j])
+		if ri != rj {
+			return ri < rj
+		}
+		if len(cands[i]) != len(cands[j]) {
+			return len(cands[i]) < len(cands[j])
+		}
+		return cands[i] < cands[j]
+	})
+	return env.t.eng.allpkgs[cands[0]].Types
 }
 
 // localByName finds an SSA local by its source name (loop phis by comment, DebugRef'd locals).
@@ -907,11 +946,24 @@ func (env *ExprEnv) assign(lhs, rhs, src string) {
 		cur := t.lookup(env.st, name)
 		t.set(env.st, name, sApp("store", cur, x.S, sApp("store", sApp("select", cur, x.S), i.S, rv.S)))
 	case *ast.Ident:
-		// ghost local
-		if env.a != nil {
-			env.a.lets[l.Name] = rv
+		// ghost local. The symbolic execution visits every branch, so the assignment is guarded by the path condition of
+		// the state it happens in: on the other paths the variable keeps what it had (or an arbitrary value if it had none).
+		nv := rv
+		if env.a != nil && env.st != nil && env.st.pc != tTrue && rv.isScalar() {
+			if old, ok := env.a.lets[l.Name]; ok && old.isScalar() && old.sort() == rv.sort() {
+				nv.S = "(ite " + env.st.pc + " " + rv.S + " " + old.S + ")"
+			} else if !ok {
+				nv.S = "(ite " + env.st.pc + " " + rv.S + " " + t.fresh("ghost:"+l.Name+"@unset", rv.sort()) + ")"
+			}
 		}
-		env.vars[l.Name] = rv
+		if env.a != nil {
+			env.a.lets[l.Name] = nv
+			if env.a.ghostAssigned == nil {
+				env.a.ghostAssigned = map[string]bool{}
+			}
+			env.a.ghostAssigned[l.Name] = true
+		}
+		env.vars[l.Name] = nv
 	default:
 		t.errorf("%s: unsupported ghost assignment target %s", src, lhs)
 	}
